@@ -19,7 +19,7 @@ LEVEL = "exploration"
 RULE = ("exhaustive: 25 EEMS 2.0 names x {with, without NewFieldName} x {with, without OutFileName} x {bare, 'Result =' form}; random: "
         "EEMS models of 2-12 commands written in 2.0 syntax (any graph shape, optionally mixed with MPilot-style commands) in all "
         "W-SYNTAX layouts; distinct by (set of 2.0 names used, naming styles, mixed?, layout style)")
-REQUIRED_COUNTERS = ["names_checked", "translations_compared", "result_sets_compared", "restricted_library_histories"]
+REQUIRED_COUNTERS = ["repeated_loads_compared", "names_checked", "translations_compared", "result_sets_compared", "restricted_library_histories"]
 EXHAUSTIVE_NOTE = "all 25 mapped names x 8 naming/argument forms in both tiers"
 ASSUMPTIONS = ["the harness's name table restates the mapping by meaning (MEANTOMID is the fuzzy mean-to-mid conversion, ORNEG the minimum)",
                "2.0 commands with neither a result name nor NewFieldName/InFieldName, and OutFileName on MPilot-style commands inside a 2.0 file, are don't-care"]
@@ -193,6 +193,16 @@ def run_case(ctx, case):
     if r2 != r3:
         ctx.fail("results-differ", dict(detail, v2=repr(r2)[:300], translated=repr(r3)[:300]))
         return
+    if case["rseed"] % 2 == 0:
+        # the very same 2.0 file loaded again in this process translates to the very same program
+        ctx.count("repeated_loads_compared")
+        o2b, s2b, r2b = _load_run(t2, d)
+        if o2b[:2] != o2[:2]:
+            ctx.fail("second-load-of-the-same-file:outcome-%s" % "/".join(o2b[:2]), dict(detail, error=repr(o2b[2])[:200] if len(o2b) > 2 else None))
+            return
+        if s2b != s2:
+            ctx.fail("second-load-of-the-same-file:program-structure-differs", dict(detail, first=repr(s2)[:500], second=repr(s2b)[:500]))
+            return
     if len(ctx.samples) < 3:
         ctx.sample({"v2_text": t2[:700], "translated": t3[:700]})
 
